@@ -130,6 +130,8 @@ func (c *Context) Copy() *Context {
 	ctx.Resp = &ctx.writer
 	ctx.handlers = nil
 	ctx.index = abortedIndex
+	// Notice: keep an own errors list. Reset() keeps the backing array for the next request.
+	ctx.Errors = append([]error(nil), c.Errors...)
 	return &ctx
 }
 
